@@ -6,7 +6,8 @@ theorem eps4_pos : (0 : Rat) < eps4 := by decide +kernel
 theorem eps4_lt_one : eps4 < (1 : Rat) := by decide +kernel
 
 /-- what is assumed of the rounding functions: round-to-nearest is monotone and idempotent, and a float
-is a double.  Holds for `rnd = id` (exact arithmetic) and for IEEE-754 rounding. -/
+is a double.  Proved for `rnd = id` (`Lawful.exact`) and for the driver's IEEE instance (`lawful_ieee` in
+`Rounding.lean`, re-exported as `C13_lawful_ieee`). -/
 structure Lawful (o : FOps) : Prop where
   mono : ∀ a b : Rat, a ≤ b → o.rnd a ≤ o.rnd b
   idem : ∀ a : Rat, o.rnd (o.rnd a) = o.rnd a
